@@ -65,6 +65,7 @@ type Runner struct {
 	Viol   []Violation
 	Trace  []StepTrace
 	Dead   bool // the DB object is unusable (after a panic that may have left the lock held)
+	Closed bool // the DB was closed by a close step (calls on a closed database are part of C20)
 	Opened bool
 
 	Probes map[string]int
@@ -98,6 +99,16 @@ func NewRunner(seed uint64, p *prog.Program, opt Options) *Runner {
 	for i := 0; i < p.Cfg.RandSkip; i++ {
 		w.Rand.Uint64()
 	}
+	r := &Runner{W: w, P: p, Opt: opt, DBOpt: optionsOf(p.Cfg), M: model.New(), CommitState: map[int]*model.State{}, Probes: map[string]int{}}
+	r.Opt.Sparse = p.Cfg.IdxMode == 2
+	r.StateAt = []*model.State{r.M}
+	r.U = model.UniverseOf(p)
+	r.ObsOps = r.U.ObserveOps(r.Opt.Sparse)
+	return r
+}
+
+// NewRunnerOnWorld prepares a runner for p on an existing world (a mounted image).
+func NewRunnerOnWorld(w *core.World, p *prog.Program, opt Options) *Runner {
 	r := &Runner{W: w, P: p, Opt: opt, DBOpt: optionsOf(p.Cfg), M: model.New(), CommitState: map[int]*model.State{}, Probes: map[string]int{}}
 	r.Opt.Sparse = p.Cfg.IdxMode == 2
 	r.StateAt = []*model.State{r.M}
@@ -258,6 +269,23 @@ func (r *Runner) step(st *prog.Step) {
 		r.restart(st, &tr)
 	case prog.SBackup:
 		r.backup(st, &tr)
+	case prog.SClose:
+		r.closeDB(st.ID)
+		r.Closed = true
+	case prog.SOpen:
+		if r.Closed {
+			r.W.Clock.Advance(time.Millisecond)
+			r.open(st.ID)
+			r.Closed = false
+		}
+	case "nilfn":
+		var e1, e2 error
+		if pan := Safe(func() { e1 = r.DB.Update(nil); e2 = r.DB.View(nil) }); pan != "" {
+			r.viol("panic", st.ID, -1, "Update(nil)", "Update(nil)/View(nil) panicked: %s", pan)
+			r.Dead = true
+		} else if e1 == nil || e2 == nil {
+			r.viol("op", st.ID, -1, "Update(nil)", "Update(nil)/View(nil) returned nil")
+		}
 	}
 }
 
@@ -374,7 +402,9 @@ func (r *Runner) closeDB(stepID int) bool {
 		return false
 	}
 	if err != nil {
-		r.viol("close-failed", stepID, -1, "Close", "Close failed: %v", err)
+		if !r.Closed {
+			r.viol("close-failed", stepID, -1, "Close", "Close failed: %v", err)
+		}
 		return false
 	}
 	return true
@@ -390,6 +420,12 @@ func diffObs(ops []prog.Op, a, b []prog.Res) string {
 }
 
 func (r *Runner) reopen(st *prog.Step, tr *StepTrace) {
+	if r.Closed {
+		r.W.Clock.Advance(time.Millisecond)
+		r.open(st.ID)
+		r.Closed = false
+		return
+	}
 	// a real reopen is not instantaneous; hold the clock across Close/Open
 	// itself so that TTL cannot explain a difference.
 	r.W.Clock.Advance(time.Millisecond)
@@ -462,7 +498,7 @@ func (r *Runner) restart(st *prog.Step, tr *StepTrace) {
 
 // Finish closes the database (ignoring errors) so that images can be mounted.
 func (r *Runner) Finish() {
-	if r.DB != nil && !r.Dead {
+	if r.DB != nil && !r.Dead && !r.Closed {
 		Safe(func() { r.DB.Close() })
 	}
 	r.DB = nil
